@@ -27,6 +27,8 @@ def confirm(wt, which, sid, features):
     first = open(demo).readline()
     if not features and first.startswith("// features:"):
         features = first.split(":", 1)[1].strip()
+        if features.startswith("(") or features.lower().startswith(("none", "default")):
+            features = ""
     feat = f"--features {features}" if features else ""
     res = {"seed": sid, "worktree": wt, "ran": []}
     sh("git checkout -- . && rm -rf tests", wt)
